@@ -184,6 +184,15 @@ theorem executeJumpStatement_is_model (user : User σ π μ) (d : Data σ π) (s
 
 def rangeBody : GS → List GS | .range _ _ _ b => b | _ => []
 
+/-- a function body with one loop is cut at the loop, wherever it stands: the statements before the first `range`, the
+`range` and what follows it (so a statement added or removed before the loop moves nothing in the proofs) -/
+def isRange : GS → Bool
+  | .range _ _ _ _ => true
+  | .assign _ _ => false | .expr _ => false | .inc _ => false | .var _ _ => false | .ite _ _ _ _ => false
+  | .ret _ => false | .tail _ => false | .select _ _ _ _ => false | .unsupported _ => false
+def beforeRange (l : List GS) : List GS := l.takeWhile (fun s => !isRange s)
+def fromRange (l : List GS) : List GS := l.dropWhile (fun s => !isRange s)
+
 
 theorem execSs_append (user : User σ π μ) (self : GV μ) (a b : List GS) : ∀ (env : List (GV μ)) (g : GR σ π),
     execSs henv mkp prog user self env (a ++ b) g =
@@ -298,9 +307,9 @@ theorem executeIfStatement_is_model (user : User σ π μ) (d : Data σ π) (sta
     | ok x => cases x <;> simp [exec, hf, helperRes, applyCtlR, execSs, execS, evalE]
 /-! ### executeCommandStatement (C10) -/
 
-def cmdPre : List GS := fn_executeCommandStatement.body.take 2
-def cmdBody : List GS := match fn_executeCommandStatement.body.drop 2 with | s :: _ => rangeBody s | [] => []
-def cmdPost : List GS := fn_executeCommandStatement.body.drop 3
+def cmdPre : List GS := beforeRange fn_executeCommandStatement.body
+def cmdBody : List GS := match fromRange fn_executeCommandStatement.body with | s :: _ => rangeBody s | [] => []
+def cmdPost : List GS := (fromRange fn_executeCommandStatement.body).drop 1
 
 theorem cmd_shape : fn_executeCommandStatement.body =
     cmdPre ++ (.range (some 4) none (.sel (.loc 0) "Elements") cmdBody :: cmdPost) := rfl
@@ -319,7 +328,7 @@ theorem cmd_pre (user : User σ π μ) (stack : List SQ) (last : Option Stmt) (d
     execSs henv mkp prog user .dr [.cmdS es, .nil, .nil, .nil, .nil, .nil, .nil, .nil, .nil, .nil] cmdPre ⟨d, stack, last⟩ =
       if es.length = 0 then .ret [.bool false, .err] ⟨d, stack, last⟩
       else .norm [.cmdS es, .nil, .nil, .vals [], .nil, .nil, .nil, .nil, .nil, .nil] ⟨d, stack, last⟩ := by
-  simp only [cmdPre, fn_executeCommandStatement, List.take]
+  simp only [cmdPre, fn_executeCommandStatement, beforeRange, fromRange, List.takeWhile, List.dropWhile, isRange, Bool.not_false, Bool.not_true, List.take]
   cases hb : (es.length == 0) with
   | true => have h : es.length = 0 := by simpa using hb
             ir_simp [h, hb]
@@ -333,7 +342,7 @@ theorem cmd_body (user : User σ π μ) (stack : List SQ) (last : Option Stmt) (
       | (.ok v, w) => .norm [.cmdS es, a1, a2, .vals (acc ++ [v]), .int i, .val v, .nil, a7, a8, a9] ⟨{ d with w := w }, stack, last⟩
       | (.err _, w) => .ret [.bool false, .err] ⟨{ d with w := w }, stack, last⟩
       | (.panic q, w) => .panic q ⟨{ d with w := w }, stack, last⟩ := by
-  simp only [cmdBody, fn_executeCommandStatement, List.drop, rangeBody]
+  simp only [cmdBody, fn_executeCommandStatement, beforeRange, fromRange, List.takeWhile, List.dropWhile, isRange, Bool.not_false, Bool.not_true, List.drop, rangeBody]
   cases he : eval henv d.store d.visited e d.w with
   | mk o w => cases o <;> ir_simp [he, hi]
 
@@ -380,7 +389,7 @@ theorem cmd_post (user : User σ π μ) (stack : List SQ) (last : Option Stmt) (
            | (.pending, h) => .ret [.bool false, .nil] ⟨{ d with w := { d.w with host := h }, pending := some none }, stack, last⟩
            | (.panicked, h) => .panic .host ⟨{ d with w := { d.w with host := h } }, stack, last⟩)
       | _ => .ret [.bool false, .err] ⟨d, stack, last⟩ := by
-  simp only [cmdPost, fn_executeCommandStatement, List.drop]
+  simp only [cmdPost, fn_executeCommandStatement, beforeRange, fromRange, List.takeWhile, List.dropWhile, isRange, Bool.not_false, Bool.not_true, List.drop]
   cases v with
   | num x => ir_simp []
   | bool x => ir_simp []
@@ -451,9 +460,9 @@ theorem executeCommandStatement_is_model (user : User σ π μ) (d : Data σ π)
 
 /-! ### executeCallStatement -/
 
-def callPre : List GS := fn_executeCallStatement.body.take 1
-def callBody : List GS := match fn_executeCallStatement.body.drop 1 with | s :: _ => rangeBody s | [] => []
-def callPost : List GS := fn_executeCallStatement.body.drop 2
+def callPre : List GS := beforeRange fn_executeCallStatement.body
+def callBody : List GS := match fromRange fn_executeCallStatement.body with | s :: _ => rangeBody s | [] => []
+def callPost : List GS := (fromRange fn_executeCallStatement.body).drop 1
 
 theorem call_shape : fn_executeCallStatement.body =
     callPre ++ (.range (some 2) none (.sel (.loc 0) "Arguments") callBody :: callPost) := rfl
@@ -461,7 +470,7 @@ theorem call_shape : fn_executeCallStatement.body =
 theorem call_pre (user : User σ π μ) (stack : List SQ) (last : Option Stmt) (d : Data σ π) (f : String) (es : List Expr) :
     execSs henv mkp prog user .dr [.callS f es, .nil, .nil, .nil, .nil, .nil] callPre ⟨d, stack, last⟩ =
       .norm [.callS f es, .vals [], .nil, .nil, .nil, .nil] ⟨d, stack, last⟩ := by
-  simp only [callPre, fn_executeCallStatement, List.take]
+  simp only [callPre, fn_executeCallStatement, beforeRange, fromRange, List.takeWhile, List.dropWhile, isRange, Bool.not_false, Bool.not_true, List.take]
   ir_simp []
 
 theorem call_body (user : User σ π μ) (stack : List SQ) (last : Option Stmt) (d : Data σ π) (f : String) (es : List Expr)
@@ -471,7 +480,7 @@ theorem call_body (user : User σ π μ) (stack : List SQ) (last : Option Stmt) 
       | (.ok v, w) => .norm [.callS f es, .vals (acc ++ [v]), .int i, .val v, .nil, a5] ⟨{ d with w := w }, stack, last⟩
       | (.err _, w) => .ret [.err] ⟨{ d with w := w }, stack, last⟩
       | (.panic q, w) => .panic q ⟨{ d with w := w }, stack, last⟩ := by
-  simp only [callBody, fn_executeCallStatement, List.drop, rangeBody]
+  simp only [callBody, fn_executeCallStatement, beforeRange, fromRange, List.takeWhile, List.dropWhile, isRange, Bool.not_false, Bool.not_true, List.drop, rangeBody]
   cases he : eval henv d.store d.visited e d.w with
   | mk o w => cases o <;> ir_simp [he, hi]
 
@@ -511,7 +520,7 @@ theorem call_post (user : User σ π μ) (stack : List SQ) (last : Option Stmt) 
       | (.ok _, w) => .ret [.nil] ⟨{ d with w := w }, stack, last⟩
       | (.err _, w) => .ret [.err] ⟨{ d with w := w }, stack, last⟩
       | (.panic q, w) => .panic q ⟨{ d with w := w }, stack, last⟩ := by
-  simp only [callPost, fn_executeCallStatement, List.drop]
+  simp only [callPost, fn_executeCallStatement, beforeRange, fromRange, List.takeWhile, List.dropWhile, isRange, Bool.not_false, Bool.not_true, List.drop]
   cases hc : callFn henv d.visited f vs d.w with
   | mk o w =>
     cases o with
@@ -577,9 +586,9 @@ theorem foldl_set (l : Store) : ∀ (m : Store), ((m ++ l).map (·.1)).Nodup →
     · simp
     · simpa using h
 
-def restPre : List GS := fn_RestoreAt.body.take 8
-def restBody : List GS := match fn_RestoreAt.body.drop 8 with | s :: _ => rangeBody s | [] => []
-def restPost : List GS := fn_RestoreAt.body.drop 9
+def restPre : List GS := beforeRange fn_RestoreAt.body
+def restBody : List GS := match fromRange fn_RestoreAt.body with | s :: _ => rangeBody s | [] => []
+def restPost : List GS := (fromRange fn_RestoreAt.body).drop 1
 
 theorem rest_shape : fn_RestoreAt.body =
     restPre ++ (.range (some 3) (some 4) (.sel (.loc 0) "Variables") restBody :: restPost) := rfl
@@ -588,7 +597,7 @@ theorem rest_body (user : User σ π μ) (stack : List SQ) (last : Option Stmt) 
     (a0 a1 a2 : GV μ) :
     execSs henv mkp prog user .dr [a0, a1, a2, .str k, .val v] restBody ⟨d, stack, last⟩ =
       .norm [a0, a1, a2, .str k, .val v] ⟨{ d with store := d.store.set k v }, stack, last⟩ := by
-  simp only [restBody, fn_RestoreAt, List.drop, rangeBody]
+  simp only [restBody, fn_RestoreAt, beforeRange, fromRange, List.takeWhile, List.dropWhile, isRange, Bool.not_false, Bool.not_true, List.drop, rangeBody]
   cases v <;> ir_simp []
 
 theorem rest_loop (user : User σ π μ) (stack : List SQ) (last : Option Stmt) (l : Store) :
@@ -616,20 +625,20 @@ theorem restoreAt_is_model (user : User σ π μ) (g : GR σ π) (s : Snapshot) 
   simp only [callDef, find_restore, rest_shape, execSs_append]
   cases hf : prog.find s.node with
   | none =>
-    simp only [restPre, fn_RestoreAt, List.take]
+    simp only [restPre, fn_RestoreAt, beforeRange, fromRange, List.takeWhile, List.dropWhile, isRange, Bool.not_false, Bool.not_true, List.take]
     ir_simp [hf, R.restore, GR.abs]
   | some n =>
     have hpre : execSs henv mkp prog user .dr [.snap s, .nil, .nil, .nil, .nil] restPre ⟨d, stack, last⟩ =
         .norm [.snap s, .node n, .bool true, .nil, .nil]
           ⟨{ d with visited := s.visited, snapVars := s.vars, pending := none, store := [] }, stack, none⟩ := by
-      simp only [restPre, fn_RestoreAt, List.take]
+      simp only [restPre, fn_RestoreAt, beforeRange, fromRange, List.takeWhile, List.dropWhile, isRange, Bool.not_false, Bool.not_true, List.take]
       ir_simp [hf]
     simp [fn_RestoreAt] at hpre ⊢
     rw [hpre]
     obtain ⟨b3, b4, hl⟩ := rest_loop henv mkp prog user stack none s.vars
       { d with visited := s.visited, snapVars := s.vars, pending := none, store := [] } (.snap s) (.node n) (.bool true) .nil .nil
     simp [execSs, execS, evalE, field, fieldPure, rangeItems, hl]
-    simp only [restPost, fn_RestoreAt, List.drop]
+    simp only [restPost, fn_RestoreAt, beforeRange, fromRange, List.takeWhile, List.dropWhile, isRange, Bool.not_false, Bool.not_true, List.drop]
     have hfold := foldl_set s.vars [] (by simpa using hs)
     ir_simp [hf, R.restore, GR.abs, hfold]
 
